@@ -9,6 +9,8 @@ import (
 	"bytes"
 	"crypto/sha1"
 	"fmt"
+	"go/parser"
+	"go/token"
 	"os"
 	"os/exec"
 	"path/filepath"
@@ -82,8 +84,16 @@ func repeat(c *runner.Ctx, src []byte, desc string, annotated int, viaCLI bool, 
 				return
 			}
 			if err != nil {
-				c.Violation("library-error", map[string]interface{}{"file": string(src), "run": r, "error": err.Error()})
-				return
+				// refusing a file that is not Go any more is the right answer (an earlier run wrote an annotation value
+				// that a raw-string literal cannot hold: what to write for it is not specified); anything else is not
+				before := src
+				if r >= 2 {
+					before = prev
+				}
+				if _, perr := parser.ParseFile(token.NewFileSet(), "x.go", before, parser.ParseComments); perr == nil {
+					c.Violation("library-error", map[string]interface{}{"file": string(src), "run": r, "error": err.Error()})
+					return
+				}
 			}
 		}
 		c.AddTransitions(1)
